@@ -1,11 +1,13 @@
 import IslaVerif.Model.Sexp
 import IslaVerif.Driver.C04
+import IslaVerif.Driver.C09
 namespace IslaVerif.Driver
 open IslaVerif
 
 def dispatch : Sexp → Sexp
   | .list (.atom "ping" :: rest) => .list (.atom "pong" :: rest)
   | .list (.atom "c04" :: rest) => C04.handle rest
+  | .list (.atom "c09" :: rest) => C09.handle rest
   | _ => .atom "bad-request"
 
 end IslaVerif.Driver
